@@ -595,6 +595,11 @@ where
             if let Some((&j, w)) = self.iter.next() {
                 let index = self.index;
                 self.index += 1;
+                // an undirected edge is stored in the rows of both endpoints:
+                // report it once, from the lower endpoint
+                if !Ty::is_directed() && j < self.source_index {
+                    continue;
+                }
                 return Some(EdgeReference {
                     index,
                     source: self.source_index,
